@@ -135,7 +135,7 @@ CHECKS["C01"] = {
              "inv(T)T = I, Ad homomorphism to 5e-6 are NOT decided: they rest on the reference formulas (trusted base)."
              " R01.5: no rigid-motion primitive writes into an array it is given (effects summary through callees and views): the identities are statements about the caller's x, T and w."
              ' The helpers that the rewrite rules read by name (Norm, SafeTrace, SafeCopy, SafeDot, MatMul, SafeClip) are themselves compared with the definition those rules assume (or an equivalent library call), so a changed helper - e.g. a trace that snaps near-identity rotations - is reported at the helper.'),
-    "note": "Trusted: modern_robotics 1.1.1 formulas; rewrite set N1..N48; IEEE arithmetic near the 0/pi branch points is not analysed.",
+    "note": "Trusted: modern_robotics 1.1.1 formulas; rewrite set N1..N53; IEEE arithmetic near the 0/pi branch points is not analysed.",
 }
 
 CHECKS["C17"] = {
@@ -221,7 +221,7 @@ CHECKS["C08"] = {
              "definiteness as numbers, FD o ID = id, energy conservation and agreement of Arm.inverseDynamics/inverseDynamicsC "
              "with the recursion are numerical identities and are NOT decided. Also (R08.4): dependence conformance inside Arm.inverseDynamics - the base step carries (0,0,0,-g) through an operator that reads the same model inputs (joint value, screw, link frames) as the general step's propagation operator."
              ' R08.2 also holds jacobianLink to its definition hstack(Ad(inv(FKLink(theta, i))) @ JacobianSpace(prefix i + 1), zeros), computed from the arguments of the call (rule shared with C06).'),
-    "note": "Trusted: modern_robotics 1.1.1 recursion as the physics reference; rewrite set N1..N48.",
+    "note": "Trusted: modern_robotics 1.1.1 recursion as the physics reference; rewrite set N1..N53.",
 }
 
 CHECKS["C14"] = {
